@@ -682,6 +682,126 @@ Proof.
   replace (0 <? count) with true by (symmetry; apply Z.ltb_lt; exact H). reflexivity.
 Qed.
 
+(** ---------- second batch ---------- *)
+Lemma ZPop_equiv : forall max key count, same (MZPop max key count).
+Proof. unfold same. intros max key [|a [|b r]]; destruct max; reflexivity. Qed.
+
+Lemma ZRangePlain_equiv : forall rev ws key start stop, same (MZRangePlain rev ws key start stop).
+Proof. unfold same. intros rev ws. destruct rev, ws; reflexivity. Qed.
+
+Lemma BPop_equiv : forall w timeout keys, same (MBPop w timeout keys).
+Proof. unfold same. intros w. destruct w; go. Qed.
+
+Lemma BRPopLPush_equiv : forall src dst timeout, same (MBRPopLPush src dst timeout).
+Proof. unfold same. go. Qed.
+
+Lemma LMove_equiv : forall src dst srcpos dstpos, same (MLMove src dst srcpos dstpos).
+Proof. unfold same. go. Qed.
+
+Lemma BLMove_equiv : forall src dst srcpos dstpos timeout, same (MBLMove src dst srcpos dstpos timeout).
+Proof. unfold same. go. Qed.
+
+Lemma XRangeCmd_equiv : forall rev stream a b count, same (MXRangeCmd rev stream a b count).
+Proof. unfold same. intros rev stream a b [n|]; destruct rev; reflexivity. Qed.
+
+Lemma XGroupCreate_equiv : forall mk stream group start, same (MXGroupCreate mk stream group start).
+Proof. unfold same. intros mk. destruct mk; reflexivity. Qed.
+
+Lemma XAck_equiv : forall stream group ids, same (MXAck stream group ids).
+Proof. unfold same. go. Qed.
+
+Lemma XDel_equiv : forall stream ids, same (MXDel stream ids).
+Proof. unfold same. go. Qed.
+
+Lemma Eval_equiv : forall w script keys args, same (MEval w script keys args).
+Proof.
+  unfold same. intros w script keys args. cbv beta iota zeta delta [GoRedisSpec.goredis CompatArgs.adapter]. unf.
+  destruct (single_nil args); [reflexivity|].
+  assert (V : norm_toks (map a_str args) = norm_toks (map g_arg args)) by reflexivity.
+  destruct w; apply norm_of_toks; nt_simpl; rewrite V; reflexivity.
+Qed.
+
+Lemma PopCount_equiv : forall w key count, same (MPopCount w key count).
+Proof. unfold same. intros w. destruct w; reflexivity. Qed.
+
+Lemma ZRandMember_equiv : forall ws key count, same (MZRandMember ws key count).
+Proof. unfold same. intros ws. destruct ws; reflexivity. Qed.
+
+Lemma InterCard_equiv : forall zset limit keys, same (MInterCard zset limit keys).
+Proof. unfold same. intros zset. destruct zset; go. Qed.
+
+Lemma ZMPop_equiv : forall order count keys, 0 < count -> same (MZMPop order count keys).
+Proof.
+  unfold same. intros order count keys Hc. cbv beta iota zeta delta [GoRedisSpec.goredis CompatArgs.adapter]. unf.
+  replace (0 <? count) with true by (symmetry; apply Z.ltb_lt; exact Hc).
+  apply norm_of_toks. nt_simpl. cbn [norm_toks flat_map norm_tok app]. rewrite upper_lower. reflexivity.
+Qed.
+
+Lemma BZMPop_equiv : forall timeout order count keys, 0 < count -> same (MBZMPop timeout order count keys).
+Proof.
+  unfold same. intros timeout order count keys Hc. cbv beta iota zeta delta [GoRedisSpec.goredis CompatArgs.adapter]. unf.
+  replace (0 <? count) with true by (symmetry; apply Z.ltb_lt; exact Hc).
+  break_ifs; apply norm_of_toks; nt_simpl; cbn [norm_toks flat_map norm_tok app]; rewrite upper_lower; reflexivity.
+Qed.
+
+(** ClientPause: the adapter prints seconds, go-redis (and CLIENT PAUSE) milliseconds *)
+Lemma ClientPause_iff : forall dur, same (MClientPause dur) <-> a_format_sec dur = a_format_ms dur.
+Proof.
+  intros. unfold same. cbv beta iota zeta delta [GoRedisSpec.goredis CompatArgs.adapter].
+  change g_format_ms with a_format_ms. unfold KW, kw_, zi, zt. split.
+  - intro H. cbn in H. injection H as H. apply print_Z_inj. exact H.
+  - intro H. rewrite H. reflexivity.
+Qed.
+
+Lemma SlowLogGet_equiv : forall num, same (MSlowLogGet num).
+Proof. unfold same. go. Qed.
+
+(** GeoDist: go-redis passes the unit through ("" = km); the adapter panics unless it is m, km, mi, ft (any case) or "" *)
+Definition valid_unit (u : bytes) : Prop :=
+  u = [] \/ upper u = bs "M" \/ upper u = bs "KM" \/ upper u = bs "MI" \/ upper u = bs "FT".
+
+Lemma GeoDist_equiv : forall key m1 m2 unit, valid_unit unit -> same (MGeoDist key m1 m2 unit).
+Proof.
+  unfold same, valid_unit. intros key m1 m2 unit Hu.
+  cbv beta iota zeta delta [GoRedisSpec.goredis CompatArgs.adapter]. unf.
+  destruct Hu as [Hu|[Hu|[Hu|[Hu|Hu]]]].
+  - subst. reflexivity.
+  - rewrite Hu. change (bytes_eqb (bs "M") (bs "M")) with true. cbv iota.
+    destruct unit eqn:E; [discriminate Hu|]. rewrite <- E in *.
+    unfold wire, norm. cbn [norm_toks flat_map norm_tok app]. rewrite Hu. reflexivity.
+  - rewrite Hu. change (bytes_eqb (bs "KM") (bs "M")) with false. change (bytes_eqb (bs "KM") (bs "MI")) with false.
+    change (bytes_eqb (bs "KM") (bs "FT")) with false. change (bytes_eqb (bs "KM") (bs "KM")) with true. cbv iota. cbn [orb]. cbv iota.
+    destruct unit eqn:E; [discriminate Hu|]. rewrite <- E in *.
+    unfold wire, norm. cbn [norm_toks flat_map norm_tok app]. rewrite Hu. reflexivity.
+  - rewrite Hu. change (bytes_eqb (bs "MI") (bs "M")) with false. change (bytes_eqb (bs "MI") (bs "MI")) with true. cbv iota.
+    destruct unit eqn:E; [discriminate Hu|]. rewrite <- E in *.
+    unfold wire, norm. cbn [norm_toks flat_map norm_tok app]. rewrite Hu. reflexivity.
+  - rewrite Hu. change (bytes_eqb (bs "FT") (bs "M")) with false. change (bytes_eqb (bs "FT") (bs "MI")) with false.
+    change (bytes_eqb (bs "FT") (bs "FT")) with true. cbv iota.
+    destruct unit eqn:E; [discriminate Hu|]. rewrite <- E in *.
+    unfold wire, norm. cbn [norm_toks flat_map norm_tok app]. rewrite Hu. reflexivity.
+Qed.
+
+Lemma GeoDist_invalid : forall key m1 m2 unit,
+  ~ valid_unit unit -> adapter (MGeoDist key m1 m2 unit) = Panic /\ exists l, goredis (MGeoDist key m1 m2 unit) = Ok l.
+Proof.
+  intros key m1 m2 unit Hu. split; [|eexists; reflexivity].
+  cbv beta iota zeta delta [CompatArgs.adapter].
+  destruct (bytes_eqb (upper unit) (bs "M")) eqn:E1.
+  { exfalso. apply Hu. right. left. apply list_eqb_eq. exact E1. }
+  destruct (bytes_eqb (upper unit) (bs "MI")) eqn:E2.
+  { exfalso. apply Hu. right. right. right. left. apply list_eqb_eq. exact E2. }
+  destruct (bytes_eqb (upper unit) (bs "FT")) eqn:E3.
+  { exfalso. apply Hu. right. right. right. right. apply list_eqb_eq. exact E3. }
+  destruct (bytes_eqb (upper unit) (bs "KM")) eqn:E4.
+  { exfalso. apply Hu. right. right. left. apply list_eqb_eq. exact E4. }
+  cbn [orb]. unfold nonempty. destruct (upper unit) eqn:E5; [|reflexivity].
+  exfalso. apply Hu. left. unfold upper in E5. destruct unit; [reflexivity|discriminate].
+Qed.
+
+Lemma FunctionList_equiv : forall pattern withcode, same (MFunctionList pattern withcode).
+Proof. unfold same. go. Qed.
+
 (** ---------- all listed methods at once ---------- *)
 (** the arguments on which the adapter and the go-redis specification are claimed to agree *)
 Definition in_domain (c : call) : Prop :=
@@ -703,6 +823,10 @@ Definition in_domain (c : call) : Prop :=
   | MXRead _ block _ => sub_ms block = false
   | MXReadGroup _ _ _ block _ _ => sub_ms block = false
   | MXClaim _ a => sub_ms (xc_minidle a) = false
+  | MZMPop _ count _ => 0 < count
+  | MBZMPop _ _ count _ => 0 < count
+  | MClientPause dur => a_format_sec dur = a_format_ms dur
+  | MGeoDist _ _ _ unit => valid_unit unit
   | _ => True
   end.
 
@@ -764,6 +888,26 @@ Proof.
   - apply FunctionLoad_equiv.
   - apply ClientKillByFilter_equiv.
   - apply ACLLog_equiv; exact H.
+  - apply ZPop_equiv.
+  - apply ZRangePlain_equiv.
+  - apply BPop_equiv.
+  - apply BRPopLPush_equiv.
+  - apply LMove_equiv.
+  - apply BLMove_equiv.
+  - apply XRangeCmd_equiv.
+  - apply XGroupCreate_equiv.
+  - apply XAck_equiv.
+  - apply XDel_equiv.
+  - apply Eval_equiv.
+  - apply PopCount_equiv.
+  - apply ZRandMember_equiv.
+  - apply InterCard_equiv.
+  - apply ZMPop_equiv; exact H.
+  - apply BZMPop_equiv; exact H.
+  - apply ClientPause_iff; exact H.
+  - apply SlowLogGet_equiv.
+  - apply GeoDist_equiv; exact H.
+  - apply FunctionList_equiv.
 Qed.
 
 End WithFloat.
@@ -873,6 +1017,24 @@ Proof.
   - intro H. destruct (valid_order_dec (so_order s)) as [Y|N]; [exact Y|]. exfalso.
     destruct (Sort_invalid F ff fpos c key s N) as [P [l G]]. exact (panic_vs_sent _ l P G H).
   - intro H. apply Sort_equiv; assumption.
+Qed.
+
+Lemma valid_unit_dec : forall u, valid_unit u \/ ~ valid_unit u.
+Proof.
+  intros u. unfold valid_unit. destruct u as [|b r]; [left; left; reflexivity|].
+  destruct (list_eq_dec N.eq_dec (upper (b :: r)) (bs "M")) as [E|E]; [left; right; left; exact E|].
+  destruct (list_eq_dec N.eq_dec (upper (b :: r)) (bs "KM")) as [E2|E2]; [left; right; right; left; exact E2|].
+  destruct (list_eq_dec N.eq_dec (upper (b :: r)) (bs "MI")) as [E3|E3]; [left; right; right; right; left; exact E3|].
+  destruct (list_eq_dec N.eq_dec (upper (b :: r)) (bs "FT")) as [E4|E4]; [left; right; right; right; right; exact E4|].
+  right. intros [H|[H|[H|[H|H]]]]; [discriminate|contradiction|contradiction|contradiction|contradiction].
+Qed.
+
+Lemma GeoDist_iff : forall key m1 m2 unit, same F ff fpos (MGeoDist key m1 m2 unit) <-> valid_unit unit.
+Proof.
+  intros. split.
+  - intro H. destruct (valid_unit_dec unit) as [Y|N]; [exact Y|]. exfalso.
+    destruct (GeoDist_invalid F ff fpos key m1 m2 unit N) as [P [l G]]. exact (panic_vs_sent _ l P G H).
+  - apply GeoDist_equiv.
 Qed.
 
 End Characterised.
